@@ -201,20 +201,110 @@ theorem hkLinksGo_cons (classic : Bool) (now : Nat) (l : FLink F) (rest : List (
         by_cases hpi : p = i
         · simp only [hpi, if_true]; rfl
         · simp only [hpi, if_false]; rfl
-    | false => simp only [Bool.false_eq_true, if_false]
+    | false => simp only [Bool.false_eq_true, if_false]; rfl
   | false =>
     simp only [Bool.false_eq_true, if_false]
     unfold hkLive
     cases h1 : l.needsKeepalive now with
+    | true => simp only [if_true]
+    | false => simp only [Bool.false_eq_true, if_false]
+
+/-! ### Fields the tail of the live branch does not touch -/
+
+section tail
+variable (l : FLink F) (now : Nat)
+
+@[simp] theorem pwr_lks : (l.performWindowRecovery now).lastKeepaliveSent = l.lastKeepaliveSent := rfl
+@[simp] theorem pwr_connId : (l.performWindowRecovery now).core.connId = l.core.connId := rfl
+@[simp] theorem pwr_connected : (l.performWindowRecovery now).core.connected = l.core.connected := rfl
+@[simp] theorem rbr_lks : l.recomputeBatchRegime.lastKeepaliveSent = l.lastKeepaliveSent := rfl
+@[simp] theorem rbr_core : l.recomputeBatchRegime.core = l.core := rfl
+@[simp] theorem up_lks : (l.updatePhase now).lastKeepaliveSent = l.lastKeepaliveSent := by
+  unfold FLink.updatePhase; dsimp only; split <;> (try split) <;> rfl
+@[simp] theorem up_connId : (l.updatePhase now).core.connId = l.core.connId := by
+  unfold FLink.updatePhase; dsimp only; split <;> (try split) <;> rfl
+@[simp] theorem up_connected : (l.updatePhase now).core.connected = l.core.connected := by
+  unfold FLink.updatePhase; dsimp only; split <;> (try split) <;> rfl
+
+end tail
+
+/-- The live branch, as far as the keepalive cadence is concerned. -/
+theorem hkLive_spec (classic : Bool) (now : Nat) (l : FLink F) :
+    (hkLive classic now l).1.core.connId = l.core.connId ∧
+    (hkLive classic now l).1.core.connected = l.core.connected ∧
+    (∀ x ∈ (hkLive classic now l).2,
+      x = (l.core.connId, (l.keepalivePacket now).2) ∧ l.core.connected = true) ∧
+    (hkLive classic now l).2.length ≤ 2 ∧
+    ((hkLive classic now l).1.lastKeepaliveSent = l.lastKeepaliveSent ∨
+      ((hkLive classic now l).1.lastKeepaliveSent = some now ∧
+        (l.core.connId, (l.keepalivePacket now).2) ∈ (hkLive classic now l).2)) ∧
+    (l.core.connected = true →
+      ∃ t, (hkLive classic now l).1.lastKeepaliveSent = some t ∧ now - t < 1000) := by
+  have hidle := Proto.IDLE_TIME_eq
+  have hcK : l.needsKeepalive now = true → l.core.connected = true := by
+    unfold FLink.needsKeepalive
+    cases l.core.connected <;> simp
+  have hcR : ∀ m : FLink F, m.needsRttMeasurement now = true → m.core.connected = true := by
+    intro m
+    unfold FLink.needsRttMeasurement
+    split
+    · simp
+    · simp only [Bool.and_eq_true]; intro h; exact h.1.1
+  have hK := keepalivePacket_link l now
+  have hlk1 : (l.keepalivePacket now).1.lastKeepaliveSent = some now := by rw [hK.1]
+  have hci1 : (l.keepalivePacket now).1.core.connId = l.core.connId := by rw [hK.1]
+  have hcc1 : (l.keepalivePacket now).1.core.connected = l.core.connected := by rw [hK.1]
+  unfold hkLive
+  cases classic <;>
+  · simp only [Bool.not_false, Bool.not_true, if_true, Bool.false_eq_true, if_false, rbr_lks, rbr_core,
+      up_lks, up_connId, up_connected, pwr_lks, pwr_connId, pwr_connected]
+    cases h1 : l.needsKeepalive now with
     | true =>
+      have hc := hcK h1
       simp only [if_true]
       cases h2 : (l.keepalivePacket now).1.needsRttMeasurement now with
-      | true => simp only [if_true]; rfl
-      | false => simp only [Bool.false_eq_true, if_false]; rfl
+      | true =>
+        simp only [if_true]
+        have hK2 := keepalivePacket_link (l.keepalivePacket now).1 now
+        refine ⟨by rw [hK2.1]; exact hci1, by rw [hK2.1]; exact hcc1, ?_, by simp, ?_, ?_⟩
+        · intro x hx
+          simp only [List.cons_append, List.nil_append, List.mem_cons, List.not_mem_nil, or_false] at hx
+          rcases hx with rfl | rfl
+          · exact ⟨rfl, hc⟩
+          · exact ⟨by rw [keepalivePacket_twice], hc⟩
+        · right; exact ⟨by rw [hK2.1], by simp⟩
+        · intro _; exact ⟨now, by rw [hK2.1], by omega⟩
+      | false =>
+        simp only [Bool.false_eq_true, if_false]
+        refine ⟨hci1, hcc1, ?_, by simp, ?_, ?_⟩
+        · intro x hx
+          simp only [List.append_nil, List.mem_cons, List.not_mem_nil, or_false] at hx
+          subst hx; exact ⟨rfl, hc⟩
+        · right; exact ⟨hlk1, by simp⟩
+        · intro _; exact ⟨now, hlk1, by omega⟩
     | false =>
       simp only [Bool.false_eq_true, if_false]
       cases h2 : l.needsRttMeasurement now with
-      | true => simp only [if_true]; rfl
-      | false => simp only [Bool.false_eq_true, if_false]; rfl
+      | true =>
+        have hc := hcR l h2
+        simp only [if_true]
+        refine ⟨hci1, hcc1, ?_, by simp, ?_, ?_⟩
+        · intro x hx
+          simp only [List.nil_append, List.mem_cons, List.not_mem_nil, or_false] at hx
+          subst hx; exact ⟨rfl, hc⟩
+        · right; exact ⟨hlk1, by simp⟩
+        · intro _; exact ⟨now, hlk1, by omega⟩
+      | false =>
+        simp only [Bool.false_eq_true, if_false]
+        refine ⟨trivial, trivial, by simp, by simp, Or.inl trivial, ?_⟩
+        intro hc
+        unfold FLink.needsKeepalive at h1
+        simp only [hc, Bool.not_true, Bool.false_eq_true, if_false] at h1
+        split at h1
+        · simp at h1
+        · rename_i last hlast
+          refine ⟨last, hlast, ?_⟩
+          simp only [decide_eq_false_iff_not] at h1
+          omega
 
 end Srtla.Keepalive
